@@ -2,6 +2,6 @@
 # cleanrun.sh <ID> [tier]: run a check on a pristine worktree of /repo HEAD through the private copy of /verif
 # (for use while /repo's working tree is occupied by the self-test).
 ID="$1"; TIER="${2:-quick}"
-rsync -a --delete --exclude .work --exclude .git --exclude replays --exclude evidence /verif/ /tmp/verif2/
-mkdir -p /tmp/verif2/.work /tmp/verif2/evidence
-VERIF_DIR=/tmp/verif2 VERIF_REPO=/tmp/seed5/CLEAN /tmp/verif2/vcheck $ID $TIER 2>&1 | grep "VIOLATION\|HARNESS\|tier=" | cut -c1-300
+rsync -a --delete --exclude .work --exclude .git --exclude replays --exclude evidence /verif/ /tmp/verif3/
+mkdir -p /tmp/verif3/.work /tmp/verif3/evidence
+VERIF_DIR=/tmp/verif3 VERIF_REPO=/tmp/seed5/CLEAN /tmp/verif3/vcheck $ID $TIER 2>&1 | grep "VIOLATION\|HARNESS\|tier=" | cut -c1-300
